@@ -584,6 +584,9 @@ func (x Expr) Has(data any) bool {
 					if int(fi) == len(x)-1 && start < end { // last one
 						return true
 					}
+					if end <= start { // an empty range: the rounding below must not resurrect an element
+						continue
+					}
 					end = start + (end-start-1)/step*step
 					for i := end; start <= i; i -= step {
 						v = tv[i]
@@ -607,6 +610,9 @@ func (x Expr) Has(data any) bool {
 					}
 					if int(fi) == len(x)-1 && end < start { // last one
 						return true
+					}
+					if start <= end { // an empty range: the rounding below must not resurrect an element
+						continue
 					}
 					end = start - (start-end-1)/step*step
 					for i := end; i <= start; i -= step {
@@ -647,6 +653,9 @@ func (x Expr) Has(data any) bool {
 					if int(fi) == len(x)-1 && start < end { // last one
 						return true
 					}
+					if end <= start { // an empty range: the rounding below must not resurrect an element
+						continue
+					}
 					end = start + (end-start-1)/step*step
 					for i := end; start <= i; i -= step {
 						v = tv.ValueAtIndex(i)
@@ -670,6 +679,9 @@ func (x Expr) Has(data any) bool {
 					}
 					if int(fi) == len(x)-1 && end < start { // last one
 						return true
+					}
+					if start <= end { // an empty range: the rounding below must not resurrect an element
+						continue
 					}
 					end = start - (start-end-1)/step*step
 					for i := end; i <= start; i -= step {
@@ -709,6 +721,9 @@ func (x Expr) Has(data any) bool {
 					if int(fi) == len(x)-1 && start < end { // last one
 						return true
 					}
+					if end <= start { // an empty range: the rounding below must not resurrect an element
+						continue
+					}
 					end = start + (end-start-1)/step*step
 					for i := end; start <= i; i -= step {
 						v = tv[i]
@@ -723,6 +738,9 @@ func (x Expr) Has(data any) bool {
 					}
 					if int(fi) == len(x)-1 && end < start { // last one
 						return true
+					}
+					if start <= end { // an empty range: the rounding below must not resurrect an element
+						continue
 					}
 					end = start - (start-end-1)/step*step
 					for i := end; i <= start; i -= step {
